@@ -76,7 +76,8 @@ def handle (line : String) : String :=
     let r : Option String := do
       let pool ← field ws "pool"
       let nip ← field ws "nip"
-      let nodes ← (← field ws "nodes").splitOn ";" |>.mapM parseNode
+      let nodesStr ← field ws "nodes"
+      let nodes ← (if nodesStr.isEmpty then some [] else (nodesStr.splitOn ";").mapM parseNode)
       let gcap ← parseNatList "," (← field ws "gcap")
       let owned ← parsePairs (← field ws "owned")
       let borrowed ← parsePairs (← field ws "borrowed")
